@@ -420,6 +420,14 @@ func checkC14(r *Run) {
 	// protoc invoked with two files at once (the dependency is generated too, with a selected type of its own): the
 	// response carries one file per generated input; their order and contents must not vary from run to run
 	// (both files in one Go package: protoc-gen-gogo refuses one run over files of different import paths)
+	// (`small`: one small selected type per file, so that both files take about as long to post-process and whatever is
+	// done per file concurrently completes in either order)
+	reqs = append(reqs, func() *descgen.Entry {
+		e := descgen.K10(false)
+		e.Cfg.Types = []string{"Gamma", "Unrelated"}
+		e.Tags = append(e.Tags, "generate-dep-too")
+		return descgen.Rename(e, "k10atwofilessmall")
+	})
 	for _, unsorted := range []bool{false, true} {
 		unsorted := unsorted
 		reqs = append(reqs, func() *descgen.Entry {
@@ -454,6 +462,11 @@ func checkC14(r *Run) {
 			c := caseFrom(e)
 			c.NoWrite = true
 			c.Name = fmt.Sprintf("%s_run%d", e.Name, k)
+			// schedules: the repeated runs get different numbers of processors (whatever the generator does
+			// concurrently completes in another order; a sequential generator does not notice)
+			if mp := []int{0, 1, 2, 16, 1, 4}[k%6]; mp > 0 {
+				c.PluginEnv = []string{fmt.Sprintf("GOMAXPROCS=%d", mp)}
+			}
 			if k >= runs {
 				// permuted YAML keys / set-like lists / `+` lists, some options moved to the command line
 				c.Delivery.Shuffle = rand.New(rand.NewSource(r.Seed*1009 + int64(ri)*31 + int64(k)))
